@@ -164,7 +164,7 @@ def run(chk, tier):
     if thorough:
         chosen = list(scen)
     else:
-        quota = {"std": 44, "wide": 16, "narrow": 12}
+        quota = {"std": 36, "wide": 12, "narrow": 12}
         chosen = []
         for w, k in quota.items():
             pool = [s for s in scen if s["width"] == w]
@@ -196,7 +196,7 @@ def run(chk, tier):
         rows.append(row)
     import time
     t0 = time.time()
-    res = run_parallel(rows, "c08_run", 8 if thorough else 6, extra=["--max-cor", "30" if thorough else "24"], timeout=14000 if thorough else 1500)
+    res = run_parallel(rows, "c08_run", 8, extra=["--max-cor", "30" if thorough else "24"], timeout=14000 if thorough else 1500)
     log("[c08] replay of %d scenarios: %d result lines in %.0fs" % (len(rows), len(res), time.time() - t0))
     byid = {s["id"]: s for s in rows}
     judge(chk, byid, res, rule, variant)
